@@ -45,6 +45,16 @@ type Label struct {
 	R  int    `json:"r,omitempty"`
 	X  string `json:"x,omitempty"`
 	E  *Exp   `json:"e,omitempty"` // abstract state the specification expects after this step (replay only)
+	CE *CExp  `json:"ce,omitempty"` // same, Cron module
+}
+
+// CExp is the digest of the Cron specification's state after a step.
+type CExp struct {
+	H    []int `json:"h"` // next due tick per JobConfig (-1: not in the heap)
+	Jobs int   `json:"jobs"`
+	Wq   int   `json:"wq"`
+	Rt   int   `json:"rt"`
+	Ch   int   `json:"ch"`
 }
 
 // Exp is the digest of the specification's state after a step, compared with
